@@ -219,5 +219,144 @@ __CPROVER_ensures(xv_l1 > 0 ==> __CPROVER_return_value->len >= 1)
 __CPROVER_ensures(xv_heap_live == __CPROVER_old(xv_heap_live) + 1 + (__CPROVER_return_value->len > 0 ? 1 : 0) + (long)__CPROVER_return_value->len)
 ;
 
+/* ================================================================================================================ */
+/* cert.c: what XCM reads out of the peer's certificate (OpenSSL model: env/cert_env.h)                              */
+/* ================================================================================================================ */
+_Static_assert(sizeof(struct get_san_param) == sizeof(struct xv_idx_param) && sizeof(struct get_dir_cn_param) == sizeof(struct xv_idx_param) &&
+               __builtin_offsetof(struct get_san_param, current_index) == 0 && __builtin_offsetof(struct get_san_param, target_index) == sizeof(size_t) &&
+               __builtin_offsetof(struct get_san_param, name) == 2 * sizeof(size_t) && __builtin_offsetof(struct get_dir_cn_param, current_index) == 0 &&
+               __builtin_offsetof(struct get_dir_cn_param, target_index) == sizeof(size_t) && __builtin_offsetof(struct get_dir_cn_param, cn) == 2 * sizeof(size_t),
+               "struct xv_idx_param (harness/cert/_ghost.h) mirrors get_san_param / get_dir_cn_param of cert.c");
+#define XC_NM_ASSIGNS xv_nm_calls, xv_nm_name, xv_nm_fills, xv_nm_fill_name, xv_nm_buf, xv_nm_fill_len
+#define XC_CN_OK (xv_cn_len >= 0 && xv_cn_len <= XV_ASN1_MAX && XV_LIVE_OK(xv_heap_live) && XV_LIVE_OK(xv_nm_calls) && XV_LIVE_OK(xv_nm_fills))
+/* the string returned for a name that has a commonName: a block of the caller's holding the xv_cn_len bytes of its value
+ * and a terminator (what the bytes are: byte xv_mc is the value's byte xv_mc) */
+#define XC_CN_STRING(r) (__CPROVER_is_fresh((r), (size_t)xv_cn_len + 1) && (r)[xv_cn_len] == 0 && (xv_mc < (size_t)xv_cn_len ==> (r)[xv_mc] == (char)xv_cn_byte))
+
+static char *get_cn(const X509_NAME *x509_name)
+__CPROVER_requires(XC_CN_OK)
+__CPROVER_assigns(xv_heap_live, XC_NM_ASSIGNS)
+/* PO[C10,C14] get_cn.NULL_when_the_name_has_no_common_name */
+__CPROVER_ensures((x509_name == NULL || !xv_cn_present) ==> (__CPROVER_return_value == NULL && xv_heap_live == __CPROVER_old(xv_heap_live) && xv_nm_fills == __CPROVER_old(xv_nm_fills)))
+/* PO[C10,C14,C08] get_cn.owned_terminated_copy_of_the_common_name */
+__CPROVER_ensures((x509_name != NULL && xv_cn_present) ==> (XC_CN_STRING(__CPROVER_return_value) && xv_heap_live == __CPROVER_old(xv_heap_live) + 1))
+/* PO[C10] get_cn.openssl_is_given_the_whole_block_and_this_name */
+__CPROVER_ensures((x509_name != NULL && xv_cn_present) ==> (xv_nm_fills == __CPROVER_old(xv_nm_fills) + 1 && xv_nm_fill_name == x509_name && xv_nm_buf == __CPROVER_return_value && \
+                                                            xv_nm_fill_len == xv_cn_len + 1 && xv_nm_calls == __CPROVER_old(xv_nm_calls) + 2))
+__CPROVER_ensures(xv_nm_name == x509_name)
+#ifdef XC_JOB_GET_CN
+/* (only where the contract is ENFORCED: it does not hold on the current tree, see the report; assuming it at a replaced
+ * call would hide the certificates it is about)
+ * a common name with an embedded NUL ("good.example\0.evil") must not be reported as the C string before the NUL */
+/* PO[C09] get_cn.name_with_embedded_nul_is_not_reported_as_its_prefix */
+__CPROVER_ensures((__CPROVER_return_value != NULL && xv_mc < (size_t)xv_cn_len) ==> __CPROVER_return_value[xv_mc] != 0)
+#endif
+;
+
+char *cert_get_subject_field_cn(X509 *cert)
+__CPROVER_requires(cert == XV_CERT && XC_CN_OK && XV_LIVE_OK(xv_subj_calls))
+__CPROVER_assigns(xv_heap_live, XC_NM_ASSIGNS, xv_subj_calls)
+/* PO[C10,C14] cert_get_subject_field_cn.NULL_when_the_subject_has_no_common_name */
+__CPROVER_ensures((xv_subj_null || !xv_cn_present) ==> (__CPROVER_return_value == NULL && xv_heap_live == __CPROVER_old(xv_heap_live)))
+/* PO[C10,C14,C08] cert_get_subject_field_cn.owned_terminated_copy_of_the_subject_common_name */
+__CPROVER_ensures((!xv_subj_null && xv_cn_present) ==> (XC_CN_STRING(__CPROVER_return_value) && xv_heap_live == __CPROVER_old(xv_heap_live) + 1 && xv_nm_fill_name == XV_SUBJ))
+__CPROVER_ensures(xv_subj_calls == __CPROVER_old(xv_subj_calls) + 1 && (xv_subj_null ? xv_nm_name == NULL : xv_nm_name == XV_SUBJ))
+;
+
+/* ---- subjectAltName traversal */
+#define XC_WANT_OF(t) ((t) == cert_san_type_dns ? GEN_DNS : (t) == cert_san_type_email ? GEN_EMAIL : GEN_DIRNAME)
+#define XC_TYPE_OK(t) ((t) == cert_san_type_dns || (t) == cert_san_type_email || (t) == cert_san_type_dir)
+/* entry state of a traversal: no stack handed out, nothing counted yet; the stack has 0..INT_MAX-1 entries */
+#define XC_GN_ENTRY (xv_gn_num >= 0 && xv_gn_num < 2147483647 && xv_gn_live == 0 && xv_gn_next == 0 && xv_gn_match == 0 && XV_LIVE_OK(xv_d2i_calls) && \
+                     XV_LIVE_OK(xv_gn_free_calls) && XV_LIVE_OK(xv_heap_live) && xv_heap_live == xv_heap0)
+#define XC_GN_ASSIGNS xv_d2i_calls, xv_gn_live, xv_gn_free_calls, xv_gn_next, xv_gn_match, xv_gn_ent, xv_gn_cur_payload, xv_gn_k_payload, xv_gn_k_len, xv_gn_k_byte, \
+                      xv_gn_cur_byte, xv_gn_cur_match, xv_asn1_str, xv_asn1_data, xv_asn1_len, xv_asn1_z
+/* C08: the GENERAL_NAMES stack obtained from X509_get_ext_d2i() is released exactly once, with its entries, on every path */
+#define XC_GN_RELEASED (xv_gn_live == 0 && xv_d2i_calls == __CPROVER_old(xv_d2i_calls) + 1 && xv_gn_free_calls == __CPROVER_old(xv_gn_free_calls) + 1)
+/* every entry has been examined (in order, each once: the model's assertion) */
+#define XC_GN_ALL_SEEN (xv_gn_absent || xv_gn_next == xv_gn_num)
+
+/* the recording callback: its PRECONDITION is the property "foreach_san hands the callback exactly the entries of the
+ * requested type, in order, each as the NUL-terminated string of exactly its ASN.1 length" */
+void xv_san_cb(const void *data, void *cb_data)
+__CPROVER_requires(xv_gn_cur_match && cb_data == (void *)xv_g_p1 && xv_cb_calls == xv_gn_match - 1)
+__CPROVER_requires(xv_gn_want == GEN_DIRNAME ? data == xv_gn_cur_payload : \
+                   (__CPROVER_r_ok(data, (size_t)xv_asn1_len + 1) && ((const char *)data)[xv_asn1_len] == 0 && (xv_mc < (size_t)xv_asn1_len ==> ((const char *)data)[xv_mc] == xv_gn_cur_byte)))
+__CPROVER_assigns(xv_cb_calls)
+__CPROVER_ensures(xv_cb_calls == __CPROVER_old(xv_cb_calls) + 1)
+;
+
+static void foreach_san(X509 *cert, enum cert_san_type san_type, foreach_san_cb cb, void *cb_data)
+__CPROVER_requires(cert == XV_CERT && XC_TYPE_OK(san_type) && xv_gn_want == XC_WANT_OF(san_type) && XC_GN_ENTRY && xv_cb_calls == 0)
+__CPROVER_requires(cb == xv_san_cb && __CPROVER_is_fresh(cb_data, sizeof(struct xv_idx_param)) && (void *)xv_g_p1 == cb_data)
+__CPROVER_assigns(XC_GN_ASSIGNS, xv_cb_calls)
+/* PO[C09,C14] foreach_san.visits_exactly_the_entries_of_the_requested_type_without_embedded_nul */
+__CPROVER_ensures(xv_cb_calls == xv_gn_match && XC_GN_ALL_SEEN)
+/* PO[C08] foreach_san.general_names_released_exactly_once */
+__CPROVER_ensures(XC_GN_RELEASED)
+;
+
+size_t cert_count_san(X509 *cert, enum cert_san_type san_type)
+__CPROVER_requires(cert == XV_CERT && XC_TYPE_OK(san_type) && xv_gn_want == XC_WANT_OF(san_type) && XC_GN_ENTRY)
+__CPROVER_assigns(XC_GN_ASSIGNS)
+/* PO[C10,C14] cert_count_san.number_of_entries_a_traversal_visits */
+__CPROVER_ensures(__CPROVER_return_value == (size_t)xv_gn_match && XC_GN_ALL_SEEN)
+/* PO[C08] cert_count_san.general_names_released_exactly_once */
+__CPROVER_ensures(XC_GN_RELEASED && xv_heap_live == __CPROVER_old(xv_heap_live))
+;
+
+/* cert_get_san: index == xv_want_ord (ghost constant): the model remembers match number xv_want_ord (its length xv_gn_k_len,
+ * its byte xv_gn_k_byte at offset xv_mc); ut_strdup records what it was given (xv_dup_len, xv_dup_byte) and what it returned */
+char *cert_get_san(X509 *cert, enum cert_san_type san_type, size_t index)
+__CPROVER_requires(cert == XV_CERT && (san_type == cert_san_type_dns || san_type == cert_san_type_email) && xv_gn_want == XC_WANT_OF(san_type) && XC_GN_ENTRY)
+__CPROVER_requires(index == xv_want_ord && xv_dup_calls == 0)
+__CPROVER_assigns(XC_GN_ASSIGNS, xv_heap_live, XC_DUP_ASSIGNS)
+/* PO[C10,C14] cert_get_san.the_index_th_visited_entry_as_a_string_of_the_callers */
+__CPROVER_ensures(index < (size_t)xv_gn_match ==> (__CPROVER_return_value != NULL && __CPROVER_return_value == xv_dup_ret && xv_dup_calls == 1 && \
+                  xv_dup_len == (size_t)xv_gn_k_len && xv_dup_byte == xv_gn_k_byte && xv_heap_live == __CPROVER_old(xv_heap_live) + 1))
+/* PO[C10,C14] cert_get_san.NULL_beyond_the_last_entry */
+__CPROVER_ensures(index >= (size_t)xv_gn_match ==> (__CPROVER_return_value == NULL && xv_dup_calls == 0 && xv_heap_live == __CPROVER_old(xv_heap_live)))
+/* PO[C08] cert_get_san.general_names_released_exactly_once */
+__CPROVER_ensures(XC_GN_RELEASED && XC_GN_ALL_SEEN)
+;
+
+char *cert_get_dir_cn(X509 *cert, size_t index)
+__CPROVER_requires(cert == XV_CERT && xv_gn_want == GEN_DIRNAME && XC_GN_ENTRY && xv_cn_len >= 0 && xv_cn_len <= XV_ASN1_MAX)
+__CPROVER_requires(index == xv_want_ord && xv_nm_calls == 0 && xv_nm_fills == 0)
+__CPROVER_assigns(XC_GN_ASSIGNS, xv_heap_live, XC_NM_ASSIGNS)
+/* PO[C10,C14] cert_get_dir_cn.common_name_of_the_index_th_directory_name */
+__CPROVER_ensures((index < (size_t)xv_gn_match && xv_cn_present) ==> (__CPROVER_return_value != NULL && __CPROVER_return_value == xv_nm_buf && xv_nm_fills == 1 && \
+                  xv_nm_fill_name == xv_gn_k_payload && xv_nm_fill_len == xv_cn_len + 1 && xv_heap_live == __CPROVER_old(xv_heap_live) + 1))
+/* PO[C10,C14] cert_get_dir_cn.NULL_beyond_the_last_entry_or_without_common_name */
+__CPROVER_ensures((index >= (size_t)xv_gn_match || !xv_cn_present) ==> (__CPROVER_return_value == NULL && xv_nm_fills == 0 && xv_heap_live == __CPROVER_old(xv_heap_live)))
+/* PO[C08] cert_get_dir_cn.general_names_released_exactly_once */
+__CPROVER_ensures(XC_GN_RELEASED && XC_GN_ALL_SEEN)
+;
+
+/* ---- subject key identifier */
+bool cert_has_ski(X509 *cert)
+__CPROVER_requires(cert == XV_CERT && XV_LIVE_OK(xv_ski_calls))
+__CPROVER_assigns(xv_ski_calls)
+/* PO[C10] cert_has_ski.iff_the_certificate_has_one */
+__CPROVER_ensures((__CPROVER_return_value ? 1 : 0) == (xv_ski_present ? 1 : 0))
+;
+/* cert_get_ski_len / cert_get_ski dereference the key identifier: the CALLER checks cert_has_ski() first (get_peer_subject_key_id_attr
+ * does; unit btlsupd asserts it at its cert_get_ski_len/cert_get_ski stubs) */
+size_t cert_get_ski_len(X509 *cert)
+__CPROVER_requires(cert == XV_CERT && xv_ski_present && xv_ski_len >= 0 && xv_ski_len <= XV_ASN1_MAX && XV_LIVE_OK(xv_ski_calls))
+__CPROVER_assigns(xv_ski_calls)
+/* PO[C10] cert_get_ski_len.length_of_the_key_identifier */
+__CPROVER_ensures(__CPROVER_return_value == (size_t)xv_ski_len)
+;
+/* the caller's buffer contract: EXACTLY cert_get_ski_len() bytes are enough, exactly those are written */
+void cert_get_ski(X509 *cert, void *buf)
+__CPROVER_requires(cert == XV_CERT && xv_ski_present && xv_ski_len >= 0 && xv_ski_len <= XV_ASN1_MAX && XV_LIVE_OK(xv_ski_calls) && XV_LIVE_OK(xv_ski_data_calls))
+__CPROVER_requires(xv_ski_len > 0 ==> __CPROVER_is_fresh(buf, (size_t)xv_ski_len))
+__CPROVER_assigns(xv_ski_calls, xv_ski_data_calls)
+__CPROVER_assigns(xv_ski_len > 0: __CPROVER_object_upto(buf, (size_t)xv_ski_len))
+/* PO[C10] cert_get_ski.copies_exactly_the_key_identifier */
+__CPROVER_ensures(xv_mc < (size_t)xv_ski_len ==> ((const uint8_t *)buf)[xv_mc] == xv_ski_byte)
+;
+
 #include "contracts/end.h"
 #endif
